@@ -537,6 +537,18 @@ def run_check(pid, tier, seed, replay, log, t0):
                            {'what': 'theorems that no longer check', 'theorems': ob['failed'], 'coq_errors': st['coq_errors'], 'notes': st['notes']}, False))
     if not st['translator_ok']:
         violations.append(('translator failed', {'what': 'translator gen_tables could not regenerate the model data from /repo', 'notes': st['notes']}, False))
+    # ---- independent re-check of the compiled property file and everything it depends on (thorough tier)
+    coqchk_note = None
+    if tier == 'thorough' and not ob['failed']:
+        try:
+            rc, out = sh(['coqchk', '-silent', '-o'] + COQ_FLAGS + ['OtpV.' + pid], cwd=COQ, timeout=3000)
+            m = re.search(r'\* Axioms:\s*(.*?)\n\s*\n', out, re.S)
+            coqchk_note = 'coqchk: ' + ('axioms ' + ' '.join(m.group(1).split()) if m else 'no summary') + (' (exit %d)' % rc if rc else '')
+            if rc:
+                violations.append(('coqchk rejects the compiled property file', {'what': 'coqchk -o OtpV.%s failed' % pid, 'output': out[-1500:]}, False))
+        except subprocess.TimeoutExpired:
+            coqchk_note = 'coqchk: not finished within 50 minutes (the kernel-checked .vo build stands)'
+        log.write('--- %s\n' % coqchk_note)
     # ---- correspondence
     stats, diffs, drift = {'evaluations': 0, 'distinct_nontrivial': 0, 'samples': []}, [], []
     if not (st['harness_ok'] and st['runner_ok'] and st['coq_model_ok']):
@@ -571,6 +583,7 @@ def run_check(pid, tier, seed, replay, log, t0):
         'checker_cmd': 'cd /verif/coq && make (coqc 8.16.1, full .vo build) ; coqc Properties/%s.v (Print Assumptions)' % pid,
         'trusted_base': TRUSTED_BASE + extra.get('trusted_base', []),
         'theorems': ob['assumptions'],
+        'coqchk': coqchk_note,
         'evaluations': stats.get('evaluations', 0) + extra.get('evaluations', 0),
         'distinct_nontrivial': stats.get('distinct_nontrivial', 0) + extra.get('distinct_nontrivial', 0),
         'rule': RULE + extra.get('rule', ''),
